@@ -25,7 +25,7 @@ TRUSTED_BASE = [
     "Coq 8.16.1 kernel + coqc (vm_compute only in the concrete `_refuted` witnesses / non-vacuity examples and in the correspondence shards; no native_compute)",
     "Print Assumptions: every C19 theorem is closed under the global context (no axioms); thorough tier: coqchk -o on AV.C19.Props/Corr reports Axioms: <none>",
     "hand model coq/C19/Model.v of the literal index loops (prune_on_energy/rmsd, remove_no_energy, prune_diff_graph, lowest_energy, prune, the selection tail of find_lowest_energy_conformer, Complex.__init__/atom_indexes/union graph), tied by the correspondence streams of harness/c19.py on every run",
-    "oracles (modelled, not verified): Kabsch heavy-atom RMSD (geom.calc_heavy_atom_rmsd: numpy svd) passed to the model as the implementation's pairwise matrix; graph isomorphism (networkx via mol_graphs.is_isomorphic) and make_graph passed as one bit per conformer; nx.disjoint_union_all; np.std/np.average/np.argmin; scipy distance_matrix; Atom.rotate",
+    "oracles: the implementation's Kabsch heavy-atom RMSD matrix and its make_graph+is_isomorphic bit per conformer are passed to the model, and are cross-checked every run against independent implementations in the harness (indep_heavy_rmsd: SVD singular values; indep_graph: covalent-radius rule + networkx isomorphism); nx.disjoint_union_all; np.std/np.average/np.argmin; scipy distance_matrix; Atom.rotate",
     "exact rationals stand for IEEE doubles: energies and thresholds are generated as low-bit dyadic rationals so that differences are exact; cases whose n-sigma decision margin is below 1e-9 relative (or an exact non-zero tie) and RMSD cases with |d - tol| < 1e-9 are skipped and counted",
     "rigid-body conformer generation is checked on the implementation only (internal distances 1e-8, inter-molecular distance > 2 A); the Coq theorems about it assume the rotation is an orthogonal matrix and use fuel for the while-loop",
     "harness generators, the literal printer, Python identity of distinct Conformer objects (`other is not conf`)",
@@ -714,14 +714,24 @@ def stream_rmsd(ctx, cases, fnd, full):
         n = nmax if (not full and k in (5, 60)) else min(rng.choice([0, 1, 2, 2, 3, 4, 5, 6, 8, nmax, rng.randint(0, nmax)]), nmax)
         labels = rng.choice(RMSD_TEMPLATES[:3] * 3 + RMSD_TEMPLATES[3:5] * 2 + RMSD_TEMPLATES[5:])
         geoms = gen_geoms(rng, n, labels)
+        if k in (1, 2):
+            # a LARGE set of mutually different conformers with two far-apart duplicates: nothing else is deleted, so
+            # any shortcut that compares only neighbouring / a bounded number of conformers shows
+            n, labels = (30, ("C", "C", "O", "N")) if k == 1 else (40, ("C", "N", "O", "H"))
+            geoms = [[tuple(rng.randint(-24, 24) / 8 + 1.1 * a for _ in range(3)) for a in range(len(labels))] for _ in range(n)]
+            geoms[n - 4] = geoms[2]
+            R = rot_matrix([0.3, 1.0, 0.2], 1.1)
+            geoms[n - 1] = [tuple(float(x) for x in row) for row in (R @ np.array(geoms[9]).T).T + np.array([1.0, 0.0, -2.0])]
         if n >= 2 and rng.random() < 0.5:          # exact duplicates at arbitrary positions
             geoms[rng.randrange(n)] = geoms[rng.randrange(n)]
         if n >= 2 and rng.random() < 0.5:          # a rigidly rotated + translated copy (RMSD 0 after alignment)
             i, j = rng.sample(range(n), 2)
             R = rot_matrix(np.array([rng.uniform(-1, 1) for _ in range(3)]) + np.array([0.01, 0.02, 0.03]), rng.uniform(0.5, 2.6))
             geoms[j] = [tuple(float(x) for x in row) for row in (R @ np.array(geoms[i]).T).T + np.array([0.5, -1.0, 2.0])]
-        tol = rng.choice(R_TOLS)
+        tol = 0.05 if k in (1, 2) else rng.choice(R_TOLS)
         arg, kind, coq_arg, meant, used = tol_argument(rng, tol)
+        if k in (1, 2):
+            arg, kind, coq_arg, meant, used = 0.05, "float", f"(TFloat {qc(0.05)})", 0.05, 0.05
         set_name_mode(rng.choice(NAME_MODES))
         cs = build_confs([None] * n, geoms, labels)
         D = rmsd_matrix(cs)
@@ -1141,7 +1151,7 @@ def stream_select(ctx, cases, fnd, full):
                 elif prior == "searched-before" and n > 0:
                     shifted = method("other-level", {i: (geoms1[i], None if ens1[i] is None else ens1[i] - 3.0) for i in range(n)})
                     try:
-                        mol.find_lowest_energy_conformer(lmethod=shifted, allow_connectivity_changes=True)
+                        mol.find_lowest_energy_conformer(lmethod=shifted, allow_connectivity_changes=False)
                     except (NoConformers, RuntimeError):
                         pass
                 mol.find_lowest_energy_conformer(lmethod=lm, hmethod=hm, allow_connectivity_changes=allow)
@@ -1252,6 +1262,18 @@ def stream_complex(ctx, cases, fnd, full):
                 reordered.append(None)
         base_rep = {"kind": "complex", "molecules": [POOL[w][0] for w in combo], "charges": [m.charge for m in mols],
                     "mults": [m.mult for m in mols], "copy": copy, "reorder_atoms": reordered}
+        # each molecule's OWN graph must still describe its (re-ordered) atoms: labels per node and bonds
+        mol_graph_ok = True
+        for k, m in enumerate(mols):
+            labs = [a.label for a in m.atoms]
+            own = sorted(indep_graph(labs, [tuple(float(x) for x in a.coord) for a in m.atoms]).edges)
+            g_edges = sorted((int(min(a, b)), int(max(a, b))) for a, b in m.graph.edges)
+            g_labs = [m.graph.nodes[i]["atom_label"] for i in range(m.n_atoms)]
+            if g_edges != own or g_labs != labs:
+                mol_graph_ok = False
+                fnd.add("Species.reorder_atoms|graph-does-not-follow-atoms" if reordered[k] else "mol_graphs.make_graph|differs-from-independent-perception",
+                        m.n_atoms, f"molecule {POOL[combo[k]][0]} (reorder_atoms: {reordered[k]}): atoms {labs} with bonds {own} (independent "
+                        f"perception) but its graph has node labels {g_labs} and edges {g_edges}", base_rep)
         # unique id per constituent atom: (molecule k, atom j) -> running number
         ids, table = [], {}
         for k, m in enumerate(mols):
@@ -1307,7 +1329,7 @@ def stream_complex(ctx, cases, fnd, full):
             want_edges = sorted(indep_graph(atom_labels, [tuple(float(x) for x in a.coord) for a in cx.atoms]).edges)
         if nn != N or edges != want_edges or not labels_ok:
             node_labels = [cx.graph.nodes[i]["atom_label"] for i in range(nn)]
-            if any(r and r[0] == "cached" for r in reordered) and nn == N:
+            if any(r and r[0] == "cached" for r in reordered) and nn == N and mol_graph_ok:
                 fnd.add(K_REORDER, len(mols), f"Complex({', '.join(rep['molecules'])}) after reorder_atoms {reordered} on molecules whose graph "
                         f"existed: atoms are {atom_labels} but the graph's nodes are labelled {node_labels} with edges {edges}; the bonds of "
                         f"these atoms are {want_edges}. nx.disjoint_union_all relabels by node ITERATION order, which "
@@ -1508,26 +1530,36 @@ def replay(ctx, obj):
 
 
 MANIFEST = {
-    "technique": "Coq proof over a hand model of the literal pruning loops and complex bookkeeping + model/implementation "
-                 "correspondence on generated conformer sets and complexes + exact property oracles on the implementation",
-    "level_text": ("Machine-checked theorems (coq/C19/Props.v, all closed under the global context) for ALL conformer lists, energy "
+    "technique": "Coq proof over a hand model of the literal pruning loops, the selection pipeline and the complex bookkeeping "
+                 "(source-pinned) + model/implementation correspondence on generated conformer sets and complexes + exact and "
+                 "INDEPENDENT property oracles on the implementation (own Kabsch RMSD, own bond perception)",
+    "level_text": ("Machine-checked theorems (coq/C19/Props.v, 24, all closed under the global context) for ALL conformer lists, energy "
                    "mixtures (present/missing), thresholds and oracles: prune_on_rmsd never raises, never empties a non-empty set, "
-                   "leaves every remaining pair >= tol, is idempotent; prune_on_energy never raises (explicit Crash constructor of the "
-                   "index loop unreachable), retained energies pairwise >= e_tol apart, every non-outlier conformer (so the lowest "
-                   "non-outlier energy) is retained or within e_tol of a retained one, everything deleted is an outlier or within "
-                   "e_tol of a retained one, non-empty for n_sigma >= 1 (sum of squared deviations = n*variance); lowest_energy is "
-                   "the minimum of the list; remove_no_energy / prune_diff_graph are exact filters; the selected conformer has the "
-                   "parent graph unless allowed and is the minimum of the retained; Complex: atoms concatenation (following Python's "
-                   "reflected-add dispatch), charge sum, mult formula, atom_indexes partition into contiguous ranges aligned with the "
-                   "atoms, disjoint-union graph with no inter-molecular edge; rigid motions/push preserve internal distances and exit "
-                   "only with separation > 2 A.  Two sentences are REFUTED with witnesses that replay on the real code (findings): "
-                   "energy pruning empties the set for n_sigma < 1, and is not idempotent (statistics recomputed); idempotence is "
-                   "proved under the proviso that no new outlier appears."),
-    "level_note": ("Trusted: Coq kernel + vm_compute; the hand model (validated each run: retained indices / error classes on "
-                   "generated sets of 0-40 conformers, the default-threshold selection pipeline with stubbed generation/optimisation, "
-                   "0-3 molecule complexes); oracles: Kabsch RMSD matrix, graph isomorphism bit, numpy statistics, networkx union. "
-                   "Exact rationals stand for doubles (dyadic inputs; near-tie cases skipped and counted). Rigid-body generation is "
-                   "exercised on the implementation only (1e-8 / > 2 A); its Coq theorems assume an orthogonal rotation matrix and fuel. "
-                   "Partial: 'never empties' holds for n_sigma >= 1 only and 'idempotent' for energy pruning only when the second "
-                   "call finds no new outlier (both false in general: see findings)."),
+                   "leaves every remaining pair >= tol, is idempotent (for a None / float / Angstrom-Distance tolerance argument); "
+                   "prune_on_energy never raises (Crash constructor of the index loop unreachable), retained energies pairwise >= e_tol "
+                   "apart, every non-outlier conformer (so the lowest non-outlier energy) is retained or within e_tol of a retained "
+                   "one, everything deleted is an outlier or within e_tol of a retained one, non-empty for n_sigma >= 1; lowest_energy "
+                   "is the minimum; remove_no_energy / prune_diff_graph are exact filters; find_lowest_energy_conformer (call order "
+                   "modelled) selects the minimum of the final energies among conformers whose FINAL geometry has the parent graph "
+                   "unless allowed; Complex: atoms concatenation (Python's reflected-add dispatch modelled), charge sum, mult formula, "
+                   "atom_indexes partition aligned with the atoms. REFUTED with witnesses that replay on the real code (findings): "
+                   "energy pruning empties the set for n_sigma < 1 and is not idempotent; a non-float or non-Angstrom tolerance "
+                   "argument of prune_on_rmsd raises / is mis-scaled; the complex graph (nx.disjoint_union_all relabels by node "
+                   "iteration order) is misaligned with the atoms after reorder_atoms on a molecule whose graph existed."),
+    "level_note": ("PARTIAL, stated as such in Props.v: (1) complex_graph_disjoint_union_partial needs every molecule graph to list "
+                   "its nodes in label order (false after reorder_atoms: refuted + finding); (2) rigid_body_preserves_internal_partial / "
+                   "separation_gt_2_on_exit_partial are algebra about the three primitive moves and the exit test of the push loop - "
+                   "there is NO Gallina model of get_complex_conformer_atoms (loop over molecules, Atom.rotate) and termination of the "
+                   "while loop is not proved (fuel): the last sentence of the property is exercised on the implementation only "
+                   "(internal distance matrices 1e-8, inter-molecular distance > 2 A, count; dimers and trimers every run); "
+                   "(3) energy idempotence only when no new outlier appears, non-emptiness only for n_sigma >= 1; (4) the model's "
+                   "conformers all have atoms: atom-less conformers (failed optimisation) are an implementation-only stream (finding); "
+                   "(5) complex_charge_sum / complex_mult are definitional (left fold = sum), their content is the correspondence; "
+                   "(6) idempotence of the composite Conformers.prune has no theorem (oracle only: second call, finding key); "
+                   "find_lowest_energy_conformer on species with <= 2 atoms (early return) and on a Complex is not run. "
+                   "Trusted: Coq kernel + vm_compute; the hand model (18+5 pinned functions; validated each run on 0-40 conformers, the "
+                   "two-level selection pipeline with stubbed generation/optimisation, 0-3 molecule complexes incl. re-ordered "
+                   "molecules); the implementation's RMSD matrix and isomorphism bits are fed to the model but cross-checked against "
+                   "independent implementations written for the harness; numpy statistics, networkx. Exact rationals stand for "
+                   "doubles (dyadic inputs; near ties skipped and counted; exact ties kept when float arithmetic is provably exact)."),
 }
